@@ -34,7 +34,7 @@ extern ssize_t mpt_qpre(MPT_STRUCT(queue) *queue, size_t len)
 		queue->off = queue->max - (len - high);
 	}
 	else {
-		if (len < queue->off) queue->off -= len;
+		if (len <= queue->off) queue->off -= len;
 		else queue->off += queue->max - len;
 	}
 	total -= len;
